@@ -336,13 +336,10 @@ impl<R: Read + io::Seek> ZipArchive<R> {
         // have its signature 20 bytes in front of the standard footer. The
         // standard footer, in turn, is 22+N bytes large, where N is the
         // comment length. Therefore:
-        let zip64locator = if reader
-            .seek(io::SeekFrom::End(
-                -(20 + 22 + footer.zip_file_comment.len() as i64),
-            ))
-            .is_ok()
-        {
-            match spec::Zip64CentralDirectoryEndLocator::parse(reader) {
+        let zip64locator = match reader.seek(io::SeekFrom::End(
+            -(20 + 22 + footer.zip_file_comment.len() as i64),
+        )) {
+            Ok(_) => match spec::Zip64CentralDirectoryEndLocator::parse(reader) {
                 Ok(loc) => Some(loc),
                 Err(ZipError::InvalidArchive(_)) => {
                     // No ZIP64 header; that's actually fine. We're done here.
@@ -352,11 +349,13 @@ impl<R: Read + io::Seek> ZipArchive<R> {
                     // Yikes, a real problem
                     return Err(e);
                 }
-            }
-        } else {
-            // Empty Zip files will have nothing else so this error might be fine. If
-            // not, we'll find out soon.
-            None
+            },
+            // Empty Zip files have nothing in front of the footer: the position is negative
+            // and the seek is refused. That is fine, there is no locator to look at.
+            Err(e) if e.kind() == io::ErrorKind::InvalidInput => None,
+            // Any other failure is a real I/O problem and must not be taken for "no ZIP64
+            // footer": the 16/32-bit fields of a ZIP64 archive describe a different directory.
+            Err(e) => return Err(e.into()),
         };
 
         match zip64locator {
